@@ -527,6 +527,13 @@ func (g *G) MacroProgram() *m.Program {
 		main.Body = append(main.Body, g.MacroDef(i))
 	}
 	main.Body = append(main.Body, &m.N{K: "import", X: m.EStr("lib"), S: "mm"})
+	// the template's own macros through an import of _self
+	if len(g.macros) > 0 && g.intn("importself", 0, 2) == 0 {
+		main.Body = append(main.Body, &m.N{K: "import", X: m.EName("_self"), S: "ss"},
+			m.NPrint(&m.E{K: "mcall", S: "m0", T: "alias", U: "ss", A: []*m.E{m.ENum(7), m.EStr("z")}}),
+			&m.N{K: "from", X: m.EName("_self"), Pairs: [][2]string{{"m0", "self_m0"}}},
+			m.NPrint(&m.E{K: "mcall", S: "m0", T: "from", U: "self_m0", A: []*m.E{m.ENum(8)}}), m.NText(";"))
+	}
 	from := &m.N{K: "from", X: m.EStr("lib")}
 	fromNames := map[string]string{}
 	usedFn := map[int]bool{}
